@@ -95,6 +95,7 @@ func gens() []gen {
 		{"vh", 14, caseVH, vhCorpus()},
 		{"uncle", 10, caseUncle, uncleCorpus()},
 		{"fields", 3, caseFields, []string{"prefork", "transition", "postfork-kawpow", "postfork-sha", "body"}},
+		{"engine", 3, caseEngine, engineCorpus()},
 	}
 }
 
